@@ -162,3 +162,85 @@ func verifH_C15_lru() {
 	}
 	verifReach("end")
 }
+
+func init() {
+	verifRegister("C15_big", verifH_C15_big)
+}
+
+// H15-big: one insertion into a full cache of realistic size. Capacity C
+// (hundreds of entries), filled through the real API with keys 1..C; the first
+// clean entry seen from the cold end sits at a chosen depth p (every colder
+// entry is dirty; p ranges over the ends of the list, the middle and the
+// neighbourhood of every power of two up to C, or there is no clean entry at
+// all); the flags of the warmer entries and of the new page are symbolic. The
+// insertion must evict exactly that entry - however deep the walk has to go -
+// and be refused only when every entry is dirty.
+func verifH_C15_big() {
+	C := verifParam("cap", 100)
+	fs := &fileStore{cache: NewLRU(C)}
+	lru := fs.cache
+	// depth of the first clean entry, counted from the cold end
+	cands := []int{0, 1, 2, C / 2, C - 2, C - 1}
+	for q := 4; q < C; q *= 2 {
+		cands = append(cands, q-1, q, q+1)
+	}
+	var depths []int
+	seen := map[int]bool{}
+	for _, d := range cands {
+		if d >= 0 && d < C && !seen[d] {
+			seen[d] = true
+			depths = append(depths, d)
+		}
+	}
+	pi := verifChoice("depth", len(depths)+1)
+	p := -1 // no clean entry
+	if pi < len(depths) {
+		p = depths[pi]
+	}
+	nodes := make([]*btreeNode, C+1)
+	// key k is inserted k-th, so key 1 is the coldest: depth d holds key d+1
+	for k := 1; k <= C; k++ {
+		n := &btreeNode{}
+		d := k - 1
+		switch {
+		case p < 0 || d < p:
+			n.dirty = true
+		case d == p:
+			n.dirty = false
+		default:
+			n.dirty = verifBool("warm-dirty")
+		}
+		nodes[k] = n
+		verifAssert(lru.set(uint64(k), n), "fill")
+	}
+	verifAssert(len(lru.cache) == C && lru.list.Len() == C, "full")
+	nn := &btreeNode{dirty: verifBool("new-dirty")}
+	err := fs.setCache(uint64(C+1), nn)
+	if p < 0 {
+		verifAssert(err == ErrLRUCacheFull, "refused-when-full-of-dirty")
+		verifAssert(len(lru.cache) == C && lru.list.Len() == C, "nothing-dropped")
+		verifReach("refused")
+		return
+	}
+	verifAssert(err == nil, "refused-only-when-full-of-dirty")
+	if err != nil {
+		return
+	}
+	verifAssert(len(lru.cache) == C && lru.list.Len() == C, "capacity")
+	_, gone := lru.cache[uint64(p+1)]
+	verifAssert(!gone, "evicts-lru-clean")
+	got, ok := lru.cache[uint64(C+1)]
+	verifAssert(ok && got.Value.(*cacheEntry).val == nn, "new-entry-resident")
+	verifAssert(lru.list.Front() == got, "new-entry-most-recent")
+	// every other entry is still there, in the same relative order
+	e := lru.list.Back()
+	for k := 1; k <= C; k++ {
+		if k == p+1 {
+			continue
+		}
+		ce, isCE := e.Value.(*cacheEntry)
+		verifAssert(isCE && ce.key == any(uint64(k)) && ce.val == nodes[k] && lru.cache[uint64(k)] == e, "others-untouched")
+		e = e.Prev()
+	}
+	verifReach("end")
+}
